@@ -463,6 +463,9 @@ func c02Stress(seed int64, tier string) *c02Result {
 		c02PausedRender(col, n)
 		c02SharedData(col, n, 12)
 		c02FsChurn(col, n/3+1)
+		if !col.failed() {
+			c02ManyInFlight(col, tier)
+		}
 	}
 	for k := range col.seq {
 		res.Distinct = append(res.Distinct, k)
@@ -736,6 +739,7 @@ func runC02(e *Env) error {
 		"./ and ../ names in nested directories, one template above 4096 bytes); each result compared with the output of a twin engine computed serially; " +
 		"non-trivial = expected output contains the goroutine's own marker; distinct by (config, call kind, template, goroutine). " +
 		"Regression jobs first (concurrent first loads through the file-system loader, relative names from different directories, concurrent parses). " +
+		"Plus: hundreds (thorough: thousands) of calls stopped by user code inside the same nested templates at the same time, further calls made meanwhile (c02_inflight.go). " +
 		"Run in a child of this binary and, when VERIF_RACE_BIN is set, in the -race build. Plus the deterministic Load/RegisterString lost-update replay (vs model op conc_sem)."
 	if err := c02LostUpdateCheck(e); err != nil {
 		return err
